@@ -136,6 +136,96 @@ func selfValidate(prop, repo, root string, r *core.Run) {
 	}
 	r.Extra["seeded_regression"] = out
 	r.Extra["seeded_regression_summary"] = fmt.Sprintf("%d of %d seeded defects of %s reported by the quick check on a scratch copy", n, len(out), prop)
+	benignRegression(prop, repo, root, self, scratch, r)
+}
+
+// benignRegression is the other direction (DESIGN 7.7): every behaviour-preserving refactoring under /verif/benign
+// (whatever property it was written for) is applied to a scratch copy and this property's quick check must stay silent
+// on it.  Evidence about the machinery only: an alarm here is a false alarm of the rules, listed, never a VIOLATION.
+func benignRegression(prop, repo, root, self, scratch string, r *core.Run) {
+	dirs, _ := filepath.Glob(filepath.Join(root, "benign", "*"))
+	sort.Strings(dirs)
+	if len(dirs) == 0 {
+		return
+	}
+	type outcome struct {
+		Name     string `json:"refactoring"`
+		Result   string `json:"result"`
+		Reported string `json:"reported,omitempty"`
+	}
+	out := make([]outcome, len(dirs))
+	sem := make(chan bool, 4)
+	var wg sync.WaitGroup
+	for i, d := range dirs {
+		wg.Add(1)
+		go func(i int, d string) {
+			defer wg.Done()
+			sem <- true
+			defer func() { <-sem }()
+			o := outcome{Name: filepath.Base(d)}
+			defer func() { out[i] = o }()
+			w := filepath.Join(scratch, "bn."+o.Name)
+			if err := copyTree(repo, w); err != nil {
+				o.Result = "skipped: " + err.Error()
+				return
+			}
+			defer os.RemoveAll(w)
+			ap := exec.Command("git", "apply", filepath.Join(d, "patch.diff"))
+			ap.Dir = w
+			ap.Env = append(os.Environ(), "GIT_CEILING_DIRECTORIES="+scratch)
+			if msg, err := ap.CombinedOutput(); err != nil {
+				o.Result = "skipped: patch does not apply to the current tree (" + firstLine(string(msg)) + ")"
+				return
+			}
+			tr := filepath.Join(scratch, "bnroot."+o.Name)
+			os.MkdirAll(tr, 0o755)
+			defer os.RemoveAll(tr)
+			if kb, err := os.ReadFile(filepath.Join(root, "known_findings.json")); err == nil {
+				os.WriteFile(filepath.Join(tr, "known_findings.json"), kb, 0o644)
+			}
+			ctx, cancel := context.WithTimeout(context.Background(), 20*time.Minute)
+			cmd := exec.CommandContext(ctx, self, "-property", prop, "-tier", "quick", "-repo", w, "-root", tr)
+			cmd.Env = append(os.Environ(), "ORYX_RUN_BUDGET_S=60")
+			res, _ := cmd.CombinedOutput()
+			timedOut := ctx.Err() != nil
+			cancel()
+			var rulesHit []string
+			seen := map[string]bool{}
+			for _, ln := range strings.Split(string(res), "\n") {
+				ln = strings.TrimSpace(ln)
+				if strings.HasPrefix(ln, "rule=") {
+					f := strings.Fields(ln)[0][5:]
+					if !seen[f] {
+						seen[f] = true
+						rulesHit = append(rulesHit, f)
+					}
+				}
+			}
+			o.Reported = strings.Join(rulesHit, ",")
+			switch {
+			case timedOut:
+				o.Result = "not finished within 20 minutes"
+			case len(rulesHit) > 0:
+				o.Result = "FALSE ALARM"
+			default:
+				o.Result = "silent"
+			}
+		}(i, d)
+	}
+	wg.Wait()
+	n := 0
+	var alarms []outcome
+	for _, o := range out {
+		if o.Result == "silent" {
+			n++
+		} else {
+			alarms = append(alarms, o)
+		}
+	}
+	r.Extra["benign_regression_summary"] = fmt.Sprintf("%d of %d behaviour-preserving refactorings leave the quick check of %s silent", n, len(out), prop)
+	if len(alarms) > 0 {
+		r.Extra["benign_regression_not_silent"] = alarms
+	}
 }
 
 func firstLine(s string) string {
